@@ -183,6 +183,18 @@ CHECKS["C17"] = {
     ],
 }
 
+CHECKS["C06"] = {
+    "harness": "c06",
+    "level": "model_checking",
+    "floor": {"quick": 300, "thorough": 1000},
+    "timeout": {"quick": 1500, "thorough": 7200},
+    "assumptions": [
+        "blocks are owned by unique_ptr and moved, never reallocated: object address is block identity (ASan quarantine prevents address reuse within a case)",
+        "reference targets are compared as multisets per owner (slot identity inside one block is not tracked); empty entries are ignored",
+        "SetBlockOrder is only called with permutations; a geometry-data block referenced by a shape is never deleted or replaced (cached raw pointer, API hazard outside this property)",
+    ],
+}
+
 for _pid, _floor in (("C18", 1000), ("C19", 1000), ("C20", 1000)):
     CHECKS[_pid] = {
         "harness": _pid.lower(),
